@@ -20,8 +20,8 @@ var gateSets = map[string][]string{
 	"core":     {"runWith.checked", "runWith.beforeSignal", "work.beforeCall", "work.afterCall", "cb.mid"},
 	"mid":      {"cb.mid", "runWith.checked"},
 	"listener": {"listener.msg", "runWith.checked", "cb.mid", "work.afterCall"},
-	"shutdown": {"runWith.checked", "runWith.beforeSignal", "close.enter", "close.beforeBroadcast", "close.afterBroadcast", "close.done", "shutdown.cas", "shutdown.drained", "publish.before", "cb.mid", "work.beforeCall", "worker.start"},
-	"shutlite": {"runWith.checked", "close.enter", "close.beforeBroadcast", "publish.before", "cb.mid"},
+	"shutdown": {"runWith.checked", "runWith.beforeSignal", "close.enter", "close.beforeBroadcast", "close.afterBroadcast", "close.done", "shutdown.cas", "shutdown.drained", "shutdown.done", "publish.before", "cb.mid", "work.beforeCall", "worker.start"},
+	"shutlite": {"runWith.checked", "close.enter", "close.beforeBroadcast", "shutdown.done", "publish.before", "cb.mid"},
 	"query":    {"qexpire.enter", "qexpire.drained", "qlistener.msg", "runWith.checked", "cb.mid"},
 }
 
@@ -88,7 +88,10 @@ func genCase(profile string) *rapid.Generator[Case] {
 			// activity racing with the shutdown
 			k := rapid.IntRange(0, 25).Draw(t, "nrace")
 			for i := 0; i < k; i++ {
-				switch r := rapid.IntRange(0, 9).Draw(t, "racek"); {
+				switch r := rapid.IntRange(0, 10).Draw(t, "racek"); {
+				case r == 10:
+					// restart attempted while Shutdown may still be finishing (refused or accepted)
+					c.Prog = append(c.Prog, Op{K: "serve"})
 				case r < 6:
 					c.Prog = append(c.Prog, Op{K: "release", Pick: rapid.IntRange(0, 7).Draw(t, "pick")})
 				case r < 8:
